@@ -194,3 +194,60 @@ Proof.
   destruct (load_lex_slot_total s1 _ _ (finv_with_ip s _ F) (ep_ok_with_ip s _ _ Hep) Hb) as (v & Hv & _).
     rewrite Hv in H. discriminate.
 Qed.
+
+Theorem store_operand_no_env_panic s l v :
+  finv s -> code_at s = Some l -> lex_okb l = true -> ep_ok s (len (l_envmap l)) ->
+  forall k, store_operand v s = RPanic k -> k = 10 \/ k = 45.
+Proof.
+  intros F Hc Hl Hep k H. rewrite store_operand_eq in H.
+  destruct (read_operand_code s l Hc) as [(o & Ho & Hin)|(e & m & Ho)].
+  2:{ unfold bindM in H. rewrite Ho in H. discriminate. }
+  rewrite (bind_eq _ _ _ _ _ Ho) in H.
+  set (s1 := with_ip s (fst (ip s), snd (ip s) + 1)) in *.
+  unfold store_tail in H. rewrite (bind_eq get_vm _ s1 s1 s1 eq_refl) in H.
+  pose proof (lex_okb_in l o Hl Hin) as Hb.
+  destruct o; try discriminate H;
+    lazymatch type of Hin with
+    | In (VPtr ?p) _ =>
+        unfold hset in H; unfold heap_set in H;
+        destruct (p <? hlen (hp s1)); [discriminate|]; injection H as <-; auto
+    | In (VBpOff ?off) _ =>
+        unfold stack_put_offset in H; destruct (Z.of_N (sp s1) + (Z.of_N (bp s1) + off) <? 0)%Z; [discriminate|];
+        unfold stack_put in H; destruct (Z.to_N (Z.of_N (sp s1) + (Z.of_N (bp s1) + off)) <? scap s1); discriminate
+    | In (VGSlot ?slot) _ =>
+        destruct (slot <? len (g_slots s1)); [discriminate|]; injection H as <-; auto
+    | In (VAcc) _ => discriminate H
+    | In (VLexSlot ?slot) _ => idtac
+    end.
+  cbn [lex_slotb] in Hb. apply N.ltb_lt in Hb.
+  destruct (store_lex_slot_total s1 _ _ v (finv_with_ip s _ F) (ep_ok_with_ip s _ _ Hep) Hb) as (s' & Hv & _).
+  rewrite Hv in H. discriminate.
+Qed.
+
+(* ------------------------------------------------------------------ CLOSURE pairs code and environment *)
+Lemma Forall2_len {A B} (P : A -> B -> Prop) la lb : Forall2 P la lb -> length la = length lb.
+Proof. induction 1; cbn; congruence. Qed.
+Theorem closure_pairs s r s' :
+  heap_inv (hp s) -> store_wf (st s) -> closure_body s = ROk r s' ->
+  exists lp lid l ei env,
+    heap_deref (hp s') (acc s') = Ok (VClosure lp ei) /\
+    heap_get (hp s) lp = Ok (VLambda lid) /\ tget (lams (st s)) lid = Some l /\
+    env_at s' ei = Some (next_id (st s), env) /\ len env = len (l_envmap l).
+Proof.
+  intros HI SW H.
+  destruct (closure_body_inv s r s' H)
+    as (lp & lid & l & env & ei & h1 & cp & h2 & Hacc & Hlp & Hl & Hb & Hp1 & Hp2 & -> & ->).
+  destruct (heap_put_fresh _ _ _ _ HI Hp1) as (a & Ea & HI1 & Hna & Ha & Hca & Hl1 & Ho1);
+    [discriminate|discriminate|]. injection Ea as <-.
+  destruct (heap_put_fresh _ _ _ _ HI1 Hp2) as (a2 & Ea2 & HI2 & Hna2 & Ha2 & Hca2 & Hl2 & Ho2);
+    [discriminate|discriminate|]. subst cp.
+  exists lp, lid, l, ei, env. cbn [hp acc with_acc with_heap st with_store].
+  split. { cbn [heap_deref]. apply heap_get_ok. split; [apply Ha2|exact Hca2]. }
+  split; [exact Hlp|]. split; [exact Hl|].
+  split.
+  { apply env_at_some. cbn [hp acc with_acc with_heap st with_store].
+    split; [destruct Ha as [La _]; lia|]. split.
+    - assert (Hne : ei <> a2) by (intros ->; apply Hna2; exact Ha). rewrite (proj1 (Ho2 ei Hne)). exact Hca.
+    - unfold new_env. cbn [snd envs]. apply tget_tset_same. }
+  destruct (closure_environment_slots _ _ _ _ Hb) as (_ & Hf). apply Forall2_len in Hf. unfold len. lia.
+Qed.
